@@ -832,6 +832,10 @@ class AdapterLookupBase:
         required = tuple(required)
         result = None
         order = len(required)
+        # Subscribe before computing: a specification that changes (e.g.
+        # in another thread) while we compute must invalidate the answer
+        # we are about to cache.
+        self._subscribe(*required)
         for registry in self._registry.ro:
             byorder = registry._adapters
             if order >= len(byorder):
@@ -846,8 +850,6 @@ class AdapterLookupBase:
                              order)
             if result is not None:
                 break
-
-        self._subscribe(*required)
 
         return result
 
@@ -868,6 +870,7 @@ class AdapterLookupBase:
         required = tuple(required)
         order = len(required)
         result = {}
+        self._subscribe(*required)  # first; see _uncached_lookup
         for registry in reversed(self._registry.ro):
             byorder = registry._adapters
             if order >= len(byorder):
@@ -878,8 +881,6 @@ class AdapterLookupBase:
             components = byorder[order]
             _lookupAll(components, required, extendors, result, 0, order)
 
-        self._subscribe(*required)
-
         return tuple(result.items())
 
     def names(self, required, provided):
@@ -889,6 +890,7 @@ class AdapterLookupBase:
         required = tuple(required)
         order = len(required)
         result = []
+        self._subscribe(*required)  # first; see _uncached_lookup
         for registry in reversed(self._registry.ro):
             byorder = registry._subscribers
             if order >= len(byorder):
@@ -903,8 +905,6 @@ class AdapterLookupBase:
 
             _subscriptions(byorder[order], required, extendors, '',
                            result, 0, order)
-
-        self._subscribe(*required)
 
         return result
 
